@@ -52,6 +52,14 @@ def _min_gain(adj: Func, model: RepoModel) -> Optional[int]:
                     and norm(e.left.right) == norm(e.right):
                 inner = ev(e.left.left, env)
                 return (inner[0], inner[1] - (r[1] - 1), inner[2]) if inner else None
+            # (x // m + k) * m  ==  x - x % m + k * m
+            if isinstance(e.op, ast.Mult) and isinstance(e.left, ast.BinOp) and isinstance(e.left.op, ast.Add) and isinstance(e.left.left, ast.BinOp) \
+                    and isinstance(e.left.left.op, ast.FloorDiv) and r and r[0] == "abs" and r[1] == r[2] and r[1] > 0 \
+                    and norm(e.left.left.right) == norm(e.right):
+                inner, k = ev(e.left.left.left, env), ev(e.left.right, env)
+                if inner and k and k[0] == "abs":
+                    return (inner[0], inner[1] - (r[1] - 1) + k[1] * r[1], inner[2] + k[2] * r[1])
+                return None
             if l is None or r is None:
                 return None
             if isinstance(e.op, ast.Add):
@@ -245,9 +253,7 @@ def run(model: RepoModel, rep, tier: str):
     # interval analysis of adjust_node_id: the least amount by which the returned id exceeds the id passed in
     min_gain = _min_gain(adj, model) if adj is not None else None
     rep.analysed["adjust_node_id: least gain over its argument (interval analysis)"] = min_gain
-    if min_gain is None:
-        rep.unknown("C03.R2", key, BASIC, amf.node.lineno, "adjust_node_id uses arithmetic the interval analysis does not model")
-    elif offsets and isinstance(gap, int) and adds_gap and len(set(offsets)) == len(offsets) and min_gain < max(offsets):
+    if min_gain is not None and offsets and min_gain < max(offsets):
         rep.violation("C03.R2", key, adj.module.rel, adj.node.lineno,
                       f"the unit-initialiser wrapper takes ids last_stmt_id + {sorted(offsets)} (the flattener's next free id and the ones after it), "
                       f"but adjust_node_id can return as little as its argument + {min_gain}: the next file then starts at an id the wrapper of this "
